@@ -3,7 +3,7 @@
 use crate::bodymon::{Ev, Terminal};
 use crate::driver::{Ctx, Prop, Sink, Tier, Verdict};
 use crate::e1::{case_with_obs, run_serve, ServeCase, ServeObs};
-use crate::ent::{content_byte, ChunkPlan, EntSpec, Fault, FaultKind, Sz};
+use crate::ent::{content_byte_mode, ChunkPlan, EntSpec, Fault, FaultKind, Sz};
 use crate::gen::*;
 use crate::model::cond::{self, fmt_date, parse_imf, DateStyle, TagList};
 use crate::model::multipart;
@@ -89,7 +89,7 @@ pub fn exec(
 
 pub struct C01;
 
-fn c01_judge(c: &ServeCase, o: &ServeObs, sink: &mut Sink) -> (Verdict, Option<u64>) {
+pub fn c01_judge(c: &ServeCase, o: &ServeObs, sink: &mut Sink) -> (Verdict, Option<u64>) {
     if let Some(p) = &o.serve_panic {
         sink.cross_note("C13:serve-panic", || p.clone());
         return (Verdict::DontCare("serve panicked (C13)".into()), None);
@@ -269,11 +269,11 @@ pub fn c01_block(b: usize, sink: &mut Sink, judge: &ServeJudge) {
 
 pub struct C02;
 
-fn check_bytes(data: &[u8], start: u64) -> Option<usize> {
-    data.iter().enumerate().position(|(i, b)| *b != content_byte(start.wrapping_add(i as u64)))
+fn check_bytes_mode(mode: u8, data: &[u8], start: u64) -> Option<usize> {
+    data.iter().enumerate().position(|(i, b)| *b != content_byte_mode(mode, start.wrapping_add(i as u64)))
 }
 
-fn c02_judge(c: &ServeCase, o: &ServeObs, sink: &mut Sink) -> (Verdict, Option<u64>) {
+pub fn c02_judge(c: &ServeCase, o: &ServeObs, sink: &mut Sink) -> (Verdict, Option<u64>) {
     if o.serve_panic.is_some() {
         return (Verdict::DontCare("serve panicked (C13)".into()), None);
     }
@@ -302,7 +302,7 @@ fn c02_judge(c: &ServeCase, o: &ServeObs, sink: &mut Sink) -> (Verdict, Option<u
                         return (Verdict::viol("content-range-bounds|part", format!("part Content-Range {}-{}/{} for entity length {}", part.first, part.last, part.total, l)), None);
                     }
                     let data = &d.data[part.data_off..part.data_off + part.data_present];
-                    if let Some(i) = check_bytes(data, part.first) {
+                    if let Some(i) = check_bytes_mode(c.ent.content_mode, data, part.first) {
                         return (
                             Verdict::viol("wrong-byte|multipart-part", format!("part labelled {}-{}: byte {} is not entity byte {} (get_range calls {:?})", part.first, part.last, i, part.first + i as u64, o.rec.get_range)),
                             None,
@@ -333,11 +333,11 @@ fn c02_judge(c: &ServeCase, o: &ServeObs, sink: &mut Sink) -> (Verdict, Option<u
         }
         _ => return (Verdict::Ok, None),
     };
-    if let Some(i) = check_bytes(&d.data, start) {
+    if let Some(i) = check_bytes_mode(c.ent.content_mode, &d.data, start) {
         return (
             Verdict::viol(
                 format!("wrong-byte|{}", kind),
-                format!("body byte {} is {:#04x}, entity byte {} is {:#04x} (get_range calls {:?})", i, d.data[i], start + i as u64, content_byte(start + i as u64), o.rec.get_range),
+                format!("body byte {} is {:#04x}, entity byte {} is {:#04x} (get_range calls {:?})", i, d.data[i], start + i as u64, content_byte_mode(c.ent.content_mode, start + i as u64), o.rec.get_range),
             ),
             None,
         );
@@ -420,6 +420,7 @@ impl Prop for C02 {
                     sizes: (0..k).map(|_| if rng.chance(1, 5) { Sz::Rem(rng.below(5) as u32) } else { Sz::Abs(*rng.pick(&[0u32, 1, 2, 3, 7, 64, 1000, 4096, 65_535, 65_536])) }).collect(),
                     pend_mask: if rng.chance(1, 4) { rng.below(7) as u32 } else { 0 },
                     pend_period: 3,
+                    hint_exact: rng.chance(1, 3),
                 };
                 if ent.plan.sizes.iter().all(|s| matches!(s, Sz::Abs(0))) {
                     ent.plan.sizes.push(Sz::Abs(5));
@@ -432,11 +433,22 @@ impl Prop for C02 {
                     1 => format!("bytes=-{}", 1 + rng.below(len.min(100_000))),
                     _ => format!("bytes={}-{}", a, e),
                 };
+                if rng.chance(1, 4) {
+                    ent.content_mode = 1;
+                }
                 let mut c = ServeCase::get(ent);
                 c.cap = if plan_is_small_chunks(&c.ent.plan) { 4096 } else { 1 << 18 };
                 c.hdrs.push(("range".into(), v.into_bytes()));
                 exec(&c, sink, &c02_judge);
             }
+            // one body of very many frames (byte by byte over 70 000 bytes)
+            let mut ent = default_ent(200_000 + b as u64);
+            ent.plan = ChunkPlan { sizes: vec![Sz::Abs(1)], pend_mask: 0, pend_period: 0, hint_exact: false };
+            let mut c = ServeCase::get(ent);
+            c.cap = 1 << 20;
+            c.hdrs.push(("range".into(), format!("bytes={}-{}", 1000 + b, 71_000 + b).into_bytes()));
+            exec(&c, sink, &c02_judge);
+            sink.count("bodies_of_70000_frames");
             return;
         }
         let li = b / np;
@@ -614,7 +626,11 @@ fn matches_expect(e: &Expect, g: &Got, ent: &EntSpec) -> bool {
     }
 }
 
-fn c03_judge(c: &ServeCase, o: &ServeObs, sink: &mut Sink) -> (Verdict, Option<u64>) {
+pub fn c03_judge(c: &ServeCase, o: &ServeObs, sink: &mut Sink) -> (Verdict, Option<u64>) {
+    // the property speaks about GET requests carrying only a Range header
+    if c.method != "GET" || c.hdrs.iter().any(|(k, _)| !k.eq_ignore_ascii_case("range")) || c.hdrs.len() > 1 {
+        return (Verdict::DontCare("not a GET carrying only Range".into()), None);
+    }
     let rv = match c.hdr("range") {
         Some(v) => v,
         None => return (Verdict::Ok, None),
@@ -996,7 +1012,7 @@ fn tag_list_options(etag: Option<&[u8]>, big: bool, rng: &mut Rng) -> Vec<Option
             if big {
                 v.push(Some(join_tags(&[a, b], b",")));
                 v.push(Some(join_tags(&[a, b], b", ")));
-            } else if (i + 2 * j) % 5 == 0 {
+            } else if (i + 2 * j) % 5 == 0 || (i >= 5 && j < 2) || (j >= 5 && i < 2) {
                 v.push(Some(join_tags(&[a, b], if (i + j) % 2 == 0 { b"," } else { b", " })));
             }
         }
@@ -1018,7 +1034,7 @@ impl Prop for C04 {
         "exploration"
     }
     fn rule(&self, ctx: &Ctx) -> String {
-        format!("full product: ETag {{absent, strong, weak, \"a, b\", \"x y\", non-ASCII opaque}} x mtime {{absent, whole second, +1ms, +500ms, +999999999ns}} x If-Match x If-None-Match (each: absent, *, all single tags and {} pairs over {{same-strong, same-weak, other-strong, other-weak, tag containing ', '}}, sampled 3-4 element lists) x If-Modified-Since x If-Unmodified-Since {{absent, second-1, second, second+1}} x GET/HEAD{}. Non-trivial = distinct case with at least one conditional header whose status was compared with the RFC 7232 model",
+        format!("full product: ETag {{absent, strong, weak, \"a, b\", \"x y\", non-ASCII opaque}} x mtime {{absent, whole second, +1ms, +500ms, +999999999ns}} x If-Match x If-None-Match (each: absent, *, all single tags and {} pairs over {{same-strong, same-weak, other-strong, other-weak, tag containing ', ', own tag + '-gzip', own tag with one byte changed}}, sampled 3-4 element lists) x If-Modified-Since x If-Unmodified-Since {{absent, second-1, second, second+1}} x GET/HEAD{}. Non-trivial = distinct case with at least one conditional header whose status was compared with the RFC 7232 model",
             if thorough(ctx) { "all" } else { "a fifth of the" }, if thorough(ctx) { " x 3 date syntaxes x with/without Range" } else { "" })
     }
     fn n_blocks(&self, ctx: &Ctx) -> usize {
@@ -1052,7 +1068,7 @@ impl Prop for C04 {
                         }
                         for method in ["GET", "HEAD"] {
                             for range in ranges {
-                                let ent = EntSpec { len: 10, etag: etag.clone(), mtime, hdrs: vec![], plan: ChunkPlan::default(), fault: None, slow_calls: false };
+                                let ent = EntSpec { len: 10, etag: etag.clone(), mtime, hdrs: vec![], plan: ChunkPlan::default(), fault: None, slow_calls: false, content_mode: 0 };
                                 let mut c = ServeCase::get(ent);
                                 c.method = method.into();
                                 c.extra_polls = 0;
@@ -1200,6 +1216,15 @@ fn c05_if_range_values(etag: Option<&[u8]>, mtime: Option<(u64, u32)>) -> Vec<Op
     x.insert(opaque.len() - 1, b'x');
     v.push(Some(x)); // longer opaque
     v.push(Some(opaque.to_ascii_uppercase()));
+    // differs in exactly one byte (last / first of the opaque part), own tag + '-gzip'
+    for k in [1usize, opaque.len() - 2] {
+        let mut f = opaque.clone();
+        f[k] ^= 0x01;
+        v.push(Some(f));
+    }
+    let mut g = opaque[..opaque.len() - 1].to_vec();
+    g.extend_from_slice(b"-gzip\"");
+    v.push(Some(g));
     v.push(Some(inner.clone())); // no quotes
     let mut t = opaque.clone();
     t.push(b' ');
@@ -1234,19 +1259,19 @@ impl Prop for C05 {
         "exploration"
     }
     fn rule(&self, _: &Ctx) -> String {
-        "full product: ETag {absent, strong, weak, strong with comma} x mtime {absent, whole second, +500ms} x If-Range {absent, identical, same opaque strong/weak, W/ and w/ variants, different strong/weak, unterminated prefix, suffix, shorter, longer, upper-cased, unquoted, trailing space, two-tag list, *, empty, garbage, non-ASCII, dates -1s/equal/+1s/+1d in three syntaxes} x Range {single, first byte, suffix, multi (multipart-eligible), multi small, unsatisfiable, whole} x GET/HEAD x 2 lengths. Non-trivial = distinct case carrying Range whose status/Content-Range was compared with the If-Range rule".into()
+        "full product: ETag {absent, strong, weak, strong with comma, strong with obs-text bytes} x mtime {absent, whole second, +500ms} x If-Range {absent, identical, same opaque strong/weak, W/ and w/ variants, different strong/weak, unterminated prefix, suffix, shorter, longer, upper-cased, unquoted, trailing space, two-tag list, *, empty, garbage, non-ASCII, dates -1s/equal/+1s/+1d in three syntaxes} x Range {single, first byte, suffix, multi (multipart-eligible), multi small, unsatisfiable, whole} x GET/HEAD x 2 lengths. Non-trivial = distinct case carrying Range whose status/Content-Range was compared with the If-Range rule".into()
     }
     fn n_blocks(&self, _: &Ctx) -> usize {
-        4 * 3
+        5 * 3
     }
     fn exhaustive(&self, _: &Ctx) -> bool {
         true
     }
     fn run_block(&self, b: usize, sink: &mut Sink) {
-        let etags: [Option<&[u8]>; 4] = [None, Some(b"\"v1\""), Some(b"W/\"v1\""), Some(b"\"a, b\"")];
+        let etags: [Option<&[u8]>; 5] = [None, Some(b"\"v1\""), Some(b"W/\"v1\""), Some(b"\"a, b\""), Some(b"\"rev-\xb3\xe9\"")];
         let mtimes = [None, Some((FIXED_SEC, 0)), Some((FIXED_SEC, 500_000_000))];
-        let etag = etags[b % 4];
-        let mtime = mtimes[b / 4];
+        let etag = etags[b % 5];
+        let mtime = mtimes[b / 5];
         let ranges: [&[u8]; 7] = [b"bytes=1-3", b"bytes=0-0", b"bytes=-4", b"bytes=0-1, 5-6", b"bytes=0-0,2-2,4-4", b"bytes=5000-", b"bytes=0-"];
         for len in [1000u64, 12] {
             for ir in c05_if_range_values(etag, mtime) {
@@ -1255,7 +1280,7 @@ impl Prop for C05 {
                 }
                 for range in ranges {
                     for method in ["GET", "HEAD"] {
-                        let ent = EntSpec { len, etag: etag.map(|e| e.to_vec()), mtime, hdrs: vec![("content-type".into(), b"text/plain".to_vec())], plan: ChunkPlan::default(), fault: None, slow_calls: false };
+                        let ent = EntSpec { len, etag: etag.map(|e| e.to_vec()), mtime, hdrs: vec![("content-type".into(), b"text/plain".to_vec())], plan: ChunkPlan::default(), fault: None, slow_calls: false, content_mode: 0 };
                         let mut c = ServeCase::get(ent);
                         c.method = method.into();
                         c.extra_polls = 0;
@@ -1351,7 +1376,7 @@ pub fn c06_judge(c: &ServeCase, o: &ServeObs, sink: &mut Sink) -> (Verdict, Opti
             return (Verdict::viol("part-total", format!("part Content-Range total {} for entity length {}", part.total, l)), None);
         }
         let data = &d.data[part.data_off..part.data_off + part.data_present];
-        if let Some(i) = check_bytes(data, part.first) {
+        if let Some(i) = check_bytes_mode(c.ent.content_mode, data, part.first) {
             return (Verdict::viol("part-bytes", format!("part {}-{}: byte {} differs from the entity", part.first, part.last, i)), None);
         }
         let got_h = hdr_multiset(&part.hdrs);
@@ -1472,7 +1497,7 @@ pub fn c06_block(b: usize, sink: &mut Sink, judge: &ServeJudge) {
                     continue;
                 }
                 let v: Vec<String> = (0..n_many as u64).map(|i| format!("{}-{}", i * step, i * step + (i % 5))).collect();
-                let ent = EntSpec { len, etag: Some(b"\"v1\"".to_vec()), mtime: None, hdrs: hdrs.clone(), plan: plans[n_many % plans.len()].clone(), fault: None, slow_calls: false };
+                let ent = EntSpec { len, etag: Some(b"\"v1\"".to_vec()), mtime: None, hdrs: hdrs.clone(), plan: plans[n_many % plans.len()].clone(), fault: None, slow_calls: false, content_mode: 0 };
                 let mut c = ServeCase::get(ent);
                 c.cap = 1 << 20;
                 c.hdrs.push(("range".into(), format!("bytes={}", v.join(", ")).into_bytes()));
@@ -1489,7 +1514,7 @@ pub fn c06_block(b: usize, sink: &mut Sink, judge: &ServeJudge) {
             // must not leak from the refused request into the next response
             if len > (1 << 62) && set_i % 3 == 0 {
                 let huge = len - 160 - 1 - (set_i % 11);
-                let ent = EntSpec { len, etag: Some(b"\"v1\"".to_vec()), mtime: None, hdrs: hdrs.clone(), plan: ChunkPlan::default(), fault: None, slow_calls: false };
+                let ent = EntSpec { len, etag: Some(b"\"v1\"".to_vec()), mtime: None, hdrs: hdrs.clone(), plan: ChunkPlan::default(), fault: None, slow_calls: false, content_mode: 0 };
                 let mut c = ServeCase::get(ent);
                 c.cap = 1 << 12;
                 c.extra_polls = 0;
@@ -1522,9 +1547,12 @@ pub fn c06_block(b: usize, sink: &mut Sink, judge: &ServeJudge) {
             let value = format!("bytes={}", ranges.iter().map(|(a, b)| if rng.chance(1, 8) && *b == len - 1 { format!("{}-", a) } else { format!("{}-{}", a, b) }).collect::<Vec<_>>().join(if set_i % 2 == 0 { "," } else { ", " }));
             for with_if_range in [false, true] {
                 let plan = plans[(set_i as usize + with_if_range as usize) % plans.len()].clone();
-                let mut ent = EntSpec { len, etag: Some(b"\"v1\"".to_vec()), mtime: Some((FIXED_SEC, 0)), hdrs: hdrs.clone(), plan: plan.clone(), fault: None, slow_calls: false };
+                let mut ent = EntSpec { len, etag: Some(b"\"v1\"".to_vec()), mtime: Some((FIXED_SEC, 0)), hdrs: hdrs.clone(), plan: plan.clone(), fault: None, slow_calls: false, content_mode: 0 };
                 if set_i % 3 == 0 {
                     ent.mtime = None;
+                }
+                if set_i % 4 == 1 {
+                    ent.content_mode = 1; // entity bytes that look like delimiters and part headers
                 }
                 let mut c = ServeCase::get(ent);
                 c.cap = if plan_is_small_chunks(&plan) || plan.pend_period > 0 { 1 << 14 } else { 1 << 17 };
@@ -1699,12 +1727,14 @@ pub fn c07_cases_for_tuple(t: &[u32], slow: bool) -> Vec<ServeCase> {
     for (range, len, calls, faults) in all {
         for call in 0..calls {
             for (kind, at) in &faults {
-                for pend in [false, true] {
-                    if slow && (pend || (call > 0 && *at != 1)) {
+                // 0: plain, 1: Pending polls before the fault, 2: the stream reports an exact size_hint
+                for variant in 0..3 {
+                    let pend = variant == 1;
+                    if slow && (variant != 0 || (call > 0 && *at != 1)) {
                         continue;
                     }
-                    let plan = ChunkPlan { sizes: t.iter().map(|x| Sz::Abs(*x)).collect(), pend_mask: if pend { 0b0101 } else { 0 }, pend_period: if pend { 4 } else { 0 } };
-                    let ent = EntSpec { len, etag: None, mtime: None, hdrs: vec![("content-type".into(), b"x/y".to_vec())], plan, fault: Some(Fault { call, at: *at, kind: kind.clone() }), slow_calls: false };
+                    let plan = ChunkPlan { sizes: t.iter().map(|x| Sz::Abs(*x)).collect(), pend_mask: if pend { 0b0101 } else { 0 }, pend_period: if pend { 4 } else { 0 }, hint_exact: variant == 2 };
+                    let ent = EntSpec { len, etag: None, mtime: None, hdrs: vec![("content-type".into(), b"x/y".to_vec())], plan, fault: Some(Fault { call, at: *at, kind: kind.clone() }), slow_calls: false, content_mode: 0 };
                     let mut c = ServeCase::get(ent);
                     c.extra_polls = 3;
                     if let Some(r) = &range {
@@ -1726,7 +1756,7 @@ impl Prop for C07 {
         "fault_enumeration"
     }
     fn rule(&self, _: &Ctx) -> String {
-        "exhaustive: every entity stream of 1..4 chunks (1..5 in the thorough tier) with chunk lengths 0..3 x fault {early end, Err, one extra byte inside a chunk, one extra chunk} at every byte offset x response shape {200, single 206, multipart of 2 and 3 parts with the fault in each part} x {no Pending, Pending polls before the fault}. Non-trivial = distinct case in which the faulty stream was actually requested and the terminal event / delivered byte count was compared with the rule".into()
+        "exhaustive: every entity stream of 1..4 chunks (1..5 in the thorough tier) with chunk lengths 0..3 x fault {early end, Err, one extra byte inside a chunk, one extra chunk} at every byte offset x response shape {200, single 206, multipart of 2 and 3 parts with the fault in each part} x {plain, Pending polls before the fault, stream with an exact size_hint}. Non-trivial = distinct case in which the faulty stream was actually requested and the terminal event / delivered byte count was compared with the rule".into()
     }
     fn n_blocks(&self, ctx: &Ctx) -> usize {
         if ctx.leg.slow() { 40 } else if thorough(ctx) { c07_tuples_upto(5).len() } else { c07_tuples().len() }
@@ -2250,7 +2280,7 @@ impl Prop for C14 {
             let firsts = c14_firsts();
             let first = &firsts[[0usize, 1, 3, 4, 5][k % 5]];
             let mtime = if k < 5 { Some((now + 86_400, 250_000_000)) } else { Some((FIXED_SEC, 500_000_000)) };
-            let ent = EntSpec { len: 1000, etag: Some(b"\"v1\"".to_vec()), mtime, hdrs: vec![("content-type".into(), b"text/plain".to_vec())], plan: ChunkPlan::default(), fault: None, slow_calls: true };
+            let ent = EntSpec { len: 1000, etag: Some(b"\"v1\"".to_vec()), mtime, hdrs: vec![("content-type".into(), b"text/plain".to_vec())], plan: ChunkPlan::default(), fault: None, slow_calls: true, content_mode: 0 };
             let mut c = ServeCase::get(ent);
             c.extra_polls = 0;
             for (k2, v) in first {
@@ -2286,7 +2316,7 @@ impl Prop for C14 {
                         if m1 == "HEAD" && echo != 0 {
                             continue;
                         }
-                        let ent = EntSpec { len: 1000, etag: etag.map(|e| e.to_vec()), mtime, hdrs: hdrs.clone(), plan: ChunkPlan::default(), fault: None, slow_calls: false };
+                        let ent = EntSpec { len: 1000, etag: etag.map(|e| e.to_vec()), mtime, hdrs: hdrs.clone(), plan: ChunkPlan::default(), fault: None, slow_calls: false, content_mode: 0 };
                         let mut c = ServeCase::get(ent);
                         c.method = m1.into();
                         c.extra_polls = 0;
